@@ -19,7 +19,7 @@
    by the repaired text (fail on 0). *)
 From V.lib Require Import Base.
 From V.c13 Require Import C13Model.
-From V.c15 Require Import C15Model.
+From V.c15 Require Import C15Model C15Avc2Model.
 From V.c16 Require Import C16Model.
 
 Section C16Parsers.
@@ -87,8 +87,9 @@ Section C16Parsers.
     t <- parse_pps_pre_d fuel ;;
     parse_pps_post R spsmap t.
 
-  (* ---- ParseSliceHeader: the text of C15Model.parse_slice_header with `loop_fuel` replaced by the
-     caller's fuel and rep_break_n by rep_break_f (generated from it; nothing else differs) *)
+  (* ---- ParseSliceHeader: the text of C15Avc2Model.parse_slice_header2 (= C15Model.parse_slice_header with the
+     slice_group_change_cycle step of /repo 174cc8e) with `loop_fuel` replaced by the caller's fuel and
+     rep_break_n by rep_break_f (generated from it; nothing else differs) *)
   Definition parse_slice_header_d (fuel : nat) (spsmap : N -> option sps) (ppsmap : N -> option pps) : @M St slice_hdr :=
     hdr <- rd R 8 ;;
     let nalu_type := N.land (u8 hdr) 31 in
@@ -182,10 +183,14 @@ Section C16Parsers.
     let '(ddf, alpha, beta) := db in
     sgcc <- (if (0 <? pps_num_slice_groups_minus1 pp) && (3 <=? pps_slice_group_map_type pp)
                 && (pps_slice_group_map_type pp <=? 5) then
-               let size := u64 (pps_pic_size_in_map_units_minus1 pp + 1) in
+               (* repaired text, /repo 174cc8e (finding C15-F7): PicSizeInMapUnits recomputed from the SPS
+                  (SPS.picSizeInMapUnits = C15Avc2Model.sps_pic_size_in_map_units), division rounded up *)
+               let size := sps_pic_size_in_map_units sp in
                let rate := u64 (pps_slice_group_change_rate_minus1 pp + 1) in
                if rate =? 0 then fail                    (* guard ecb7975 *)
-               else rd R (N.log2_up (size / rate + 1))     (* int(math.Ceil(math.Log2(float64(...)))) *)
+               else
+                 let quot := u64 (size / rate + (if size mod rate =? 0 then 0 else 1)) in
+                 rd R (ceil_log2 (u64 (quot + 1)))       (* bits.CeilLog2(quot + 1) *)
              else ret 0) ;;
     nb <- get_nbytes R ;;
     ret (mkSh slice_type (u32 first_mb) (u32 pps_id) sps_id (u32 cpl) (u32 frame_num) (u32 idr) (u32 lsb)
